@@ -32,3 +32,9 @@ Definition fold_mod (n d : Z) : option Z :=
 (* SMT-LIB (Ints theory) semantics: for d <> 0, the unique q, r with n = d*q + r, 0 <= r < |d|. *)
 Definition smt_div (n d : Z) : Z := if 0 <? d then n / d else - (n / - d).
 Definition smt_mod (n d : Z) : Z := n mod (Z.abs d).
+
+(* C27 (d): the definitions DivModConfig::rewrite introduces for (div n d) / (mod n d) with fresh
+   variables q, r (src/rewriters/DivModRewriter.h:43-50):
+       n = d * q + r   /\   0 <= r   /\   r <= |d| - 1                                       *)
+Definition divmod_def (n d q r : Z) : bool :=
+  (n =? d * q + r) && (0 <=? r) && (r <=? Z.abs d - 1).
